@@ -1,5 +1,5 @@
 #!/bin/bash
-# usage: tools/thorough_all.sh <seed> [ID...] — runs the thorough tier of every claimed check (or the listed ones)
+# usage: [TIER=quick] tools/thorough_all.sh <seed> [ID...] — runs the thorough (or $TIER) tier of every claimed check (or the listed ones)
 # with VERIF_SEED=<seed>, evidence into a scratch directory (the committed evidence is not touched), and prints
 # one summary line per check. Exit status: 0 if every check exited 0.
 set -u
@@ -11,7 +11,7 @@ OUT=$(mktemp -d /var/tmp/thorough.XXXXXX)
 rc=0
 for id in $IDS; do
   s=$(date +%s)
-  VERIF_SEED=$SEED VERIF_OUT_DIR="$OUT" "$V/bin/check" "$id" thorough > "$OUT/$id.log" 2>&1; r=$?
+  VERIF_SEED=$SEED VERIF_OUT_DIR="$OUT" "$V/bin/check" "$id" "${TIER:-thorough}" > "$OUT/$id.log" 2>&1; r=$?
   e=$(( $(date +%s) - s ))
   echo "== $id seed=$SEED exit=$r wall=${e}s :: $(grep -E "runs=|plans compared|schedules" "$OUT/$id.log" | tail -1 | cut -c1-200)"
   grep -E "VIOLATION|KNOWN-FINDING|mismatch|trouble" "$OUT/$id.log" | cut -c1-300 | head -5
